@@ -243,16 +243,19 @@ ScEnv(o, ps, ms, d, v, ws) ==
       ELSE base @@ ObjEnv("P", ws[2], ms, o)
 
 ---------------------------------------------------------------------------
-NoSc == [kind |-> "none", cls |-> "", mode |-> "", form |-> "", given |-> "", vol |-> FALSE, ud |-> "", uv |-> "", ud2 |-> "", uv2 |-> "", j |-> 0]
+NoSc == [kind |-> "none", cls |-> "", mode |-> "", form |-> "", given |-> "", vol |-> FALSE, ud |-> "", uv |-> "", ud2 |-> "", uv2 |-> "", j |-> 0, ep |-> <<1, 1>>]
 \* <<class, mode, form>> ; form: how the components are given - "dict" (filled by add()) or "text" (an expression)
 ClsModes == {<<"element", "NUMBER", "text">>} \cup {<<"substance", "NUMBER", f>> : f \in {"dict", "text"}}
             \cup {<<"material", md, f>> : md \in {"NUMBER", "NUMBER_FRACTION", "MASS_FRACTION"}, f \in {"dict", "text"}}
 Scenarios ==
-  LET base == {[kind |-> "single", cls |-> c[1], mode |-> c[2], form |-> c[3], given |-> g, vol |-> FALSE, ud |-> u, uv |-> "", ud2 |-> "", uv2 |-> "", j |-> 0] :
+  LET base == {[kind |-> "single", cls |-> c[1], mode |-> c[2], form |-> c[3], given |-> g, vol |-> FALSE, ud |-> u, uv |-> "", ud2 |-> "", uv2 |-> "", j |-> 0, ep |-> <<1, 1>>] :
                   c \in ClsModes, g \in {"rho", "n"}, u \in {"g/cm3", "kg/m3", "cm-3", "m-3"}}
-              \cup {[kind |-> "single", cls |-> c[1], mode |-> c[2], form |-> c[3], given |-> g, vol |-> TRUE, ud |-> u, uv |-> w, ud2 |-> "", uv2 |-> "", j |-> 0] :
+              \cup {[kind |-> "single", cls |-> c[1], mode |-> c[2], form |-> c[3], given |-> g, vol |-> TRUE, ud |-> u, uv |-> w, ud2 |-> "", uv2 |-> "", j |-> 0, ep |-> <<1, 1>>] :
                   c \in ClsModes, g \in {"rho", "n"}, u \in {"g/cm3", "kg/m3", "cm-3", "m-3"}, w \in VUnits}
-      single == {s \in base : s.ud \in DUnits(s.given)}
+      \* a stand-alone Element holds q atoms per formula unit: whole (O2), sub-unit and other fractional amounts
+      EProps == {<<1, 1>>, <<2, 1>>, <<1, 2>>, <<1, 4>>, <<3, 2>>}
+      single0 == {s \in base : s.ud \in DUnits(s.given)}
+      single == {s \in single0 : s.cls # "element"} \cup {[s EXCEPT !.ep = q] : s \in {t \in single0 : t.cls = "element"}, q \in EProps}
       \* the same inputs in standard units (A) and in any other combination of units (B)
       pairs == {[s EXCEPT !.kind = "units", !.ud2 = s.ud, !.uv2 = s.uv, !.ud = DStd(s.given), !.uv = IF s.vol THEN "cm3" ELSE ""] :
                   s \in {t \in single : t.ud # DStd(t.given) \/ (t.vol /\ t.uv # "cm3")}}
@@ -273,13 +276,13 @@ Next == /\ sc = NoSc
         /\ \/ Len(comps) < MaxK /\ \E p \in PVals, m \in MVals : comps' = Append(comps, [p |-> p, m |-> m]) /\ UNCHANGED <<sc, dv>>
            \/ /\ Len(comps) >= 1
               /\ \E s \in Scenarios, d \in DVals, v \in VVals :
-                    /\ s.cls = "element" => Len(comps) = 1
+                    /\ s.cls = "element" => (Len(comps) = 1 /\ \A x \in PVals : comps[1].p <= x)   \* its proportion is s.ep
                     /\ s.j = 2 => Len(comps) >= 2
                     /\ sc' = s /\ dv' = <<d, v>>
               /\ UNCHANGED comps
 
 K  == Len(comps)
-Ps == [i \in 1..K |-> QI(comps[i].p)]
+Ps == IF sc.cls = "element" THEN <<sc.ep>> ELSE [i \in 1..K |-> QI(comps[i].p)]
 Ms == [i \in 1..K |-> QI(comps[i].m)]
 Ideal5(o, ps, pn, ctx, ms, d, v) == Ideal(o, ps, ms, d, v)
 Mach5(o, ps, pn, ctx, ms, d, v)  == Machine(o, ps, pn, ctx, ms, d, v, "")
@@ -290,11 +293,11 @@ DevTags(o, ps) == (IF o.cls = "material" /\ o.mode = "MASS_FRACTION" /\ "mass_fr
 Tags(o, k, ps) == {o.kind, o.cls, o.mode, "form_" \o o.form, "given_" \o o.given, IF o.vol THEN "volume" ELSE "no_volume", "k" \o IStr(k)} \cup DevTags(o, ps)
 
 Record == [kind |-> sc.kind, cls |-> sc.cls, mode |-> sc.mode, k |-> K, given |-> sc.given, vol |-> sc.vol, j |-> sc.j,
-           p |-> [i \in 1..K |-> comps[i].p], d |-> dv[1], v |-> dv[2],
+           p |-> [i \in 1..K |-> comps[i].p], ep |-> sc.ep, d |-> dv[1], v |-> dv[2],
            \* may the harness re-draw the proportions?  (an element's proportion decides which scenario it is)
            pfree |-> sc.cls # "element",
            \* a Substance written as a formula has integer counts
-           pint |-> sc.cls = "element" \/ (sc.cls = "substance" /\ sc.form = "text"),
+           pint |-> sc.cls = "substance" /\ sc.form = "text",
            form |-> sc.form,
            objects |-> Objects(sc, K), obl |-> Obligations(sc, K), tags |-> Tags(sc, K, Ps),
            machine_raises |-> ScRaises(ScVals(sc, Ps, Ms, QI(dv[1]), QI(dv[2]), Mach5))]
